@@ -185,3 +185,28 @@ func (r *RepeatSource) Read(p []byte) (int, error) {
 }
 
 func (r *RepeatSource) Consumed() int64 { return r.pos }
+
+// SeekSource is a Source that also implements io.Seeker (like *bytes.Reader or *os.File):
+// code that takes a short cut for seekable sources is only exercised by such a source.
+// Seeking beyond the end succeeds, as it does for files and bytes.Reader.
+type SeekSource struct{ Source }
+
+func (s *SeekSource) Seek(offset int64, whence int) (int64, error) {
+	var base int64
+	switch whence {
+	case io.SeekStart:
+		base = 0
+	case io.SeekCurrent:
+		base = int64(s.Pos)
+	case io.SeekEnd:
+		base = int64(len(s.Data))
+	default:
+		return 0, errors.New("verif: bad whence")
+	}
+	n := base + offset
+	if n < 0 {
+		return 0, errors.New("verif: negative position")
+	}
+	s.Pos = int(n)
+	return n, nil
+}
